@@ -158,11 +158,64 @@ def strip_coq_comments(txt):
 # running coqc on generated files
 
 
+def ast_hashes(src_root=None):
+    """{relative path: hash of the docstring- and comment-free AST} for every module of the package"""
+    import ast
+    src_root = src_root or os.path.join(SRC, "bldfm")
+    out = {}
+    for root, _, fs in os.walk(src_root):
+        for f in sorted(fs):
+            if not f.endswith(".py"):
+                continue
+            p = os.path.join(root, f)
+            try:
+                tree = ast.parse(open(p).read())
+            except SyntaxError:
+                out[os.path.relpath(p, src_root)] = "syntax-error"
+                continue
+            for node in ast.walk(tree):
+                body = getattr(node, "body", None)
+                if isinstance(body, list) and body and isinstance(body[0], ast.Expr) and isinstance(getattr(body[0], "value", None), ast.Constant) \
+                        and isinstance(body[0].value.value, str):
+                    body.pop(0)
+            out[os.path.relpath(p, src_root)] = hashlib.sha1(ast.dump(tree).encode()).hexdigest()
+    return out
+
+
+BASELINE_AST = os.path.join(VERIF, "harness", "baseline_ast.json")
+# thorough generators that finish within a few minutes: used for the quick tier when an anchored source file differs
+# from the tree the machinery was validated on (the search is deepened where the code moved; nothing changes on the
+# unchanged tree).  Not an obligation: a changed file alone is never reported.
+ESCALATE = {"C01", "C02", "C03", "C04", "C05", "C06", "C07", "C10", "C11", "C17"}
+
+
+def changed_anchor_files(prop):
+    """anchored source files of the property whose AST differs from the verified baseline"""
+    try:
+        base = json.load(open(BASELINE_AST))
+    except Exception:
+        return []
+    cur = ast_hashes()
+    changed = {k for k in set(base) | set(cur) if base.get(k) != cur.get(k)}
+    anchors = set()
+    try:
+        for line in open(os.path.join(VERIF, "properties.jsonl")):
+            pr = json.loads(line)
+            if pr["id"] == prop:
+                for f in pr.get("anchors", {}).get("files", []):
+                    if f.startswith("src/bldfm/"):
+                        anchors.add(f[len("src/bldfm/"):])
+    except Exception:
+        pass
+    return sorted(changed & anchors) if anchors else sorted(changed)
+
+
 class Ctx:
     def __init__(self, prop, tier, seed):
         self.prop = prop
         self.tier = tier
         self.seed = seed
+        self.escalated = []
         self.rng = random.Random(seed * 1000003 + int(prop[1:]))
         self.build = os.path.join(VERIF, "build", prop)
         if os.path.isdir(self.build):
@@ -179,7 +232,7 @@ class Ctx:
 
     @property
     def thorough(self):
-        return self.tier == "thorough"
+        return self.tier == "thorough" or bool(self.escalated)
 
     def coqc(self, path, timeout=300, extra_q=()):
         """Compile one file living in self.build (logical root Gen) against the static theories."""
@@ -489,6 +542,8 @@ def write_evidence(ctx, level="proof"):
     cov["checker_cmd"] = "coqc 8.16.1 (full .vo build via coq_makefile/make; Properties/%s.v, Gen/Bridge re-compiled this run); bin/check %s %s" % (ctx.prop, ctx.prop, ctx.tier)
     cov["trusted_base"] = ctx.trusted
     cov["known_findings_reported"] = ctx.known
+    if ctx.escalated:
+        cov["escalated_because_source_differs_from_baseline"] = ctx.escalated
     ev = {
         "property_id": ctx.prop,
         "tier": ctx.tier,
@@ -521,6 +576,12 @@ def main(argv):
     seed = int(os.environ.get("VERIF_SEED", "0") or 0)
     sys.path.insert(0, os.path.join(VERIF, "harness"))
     ctx = Ctx(prop, tier, seed)
+    if tier == "quick" and prop in ESCALATE and os.environ.get("VERIF_NO_ESCALATE") != "1":
+        ch = changed_anchor_files(prop)
+        if ch:
+            ctx.escalated = ch
+            os.environ["VERIF_NO_COQCHK"] = "1"   # the independent re-check of the theorems does not depend on /repo
+            log("%s: anchored source differs from the verified baseline in %s: searching with the thorough generators" % (prop, ", ".join(ch)))
     os.chdir(ctx.build)  # BLDFM drops fftw_wisdom.pkl / .bldfm_cache into cwd
     mod = importlib.import_module("props." + prop.lower())
     ctx.trusted = list(TRUSTED_COMMON) + list(getattr(mod, "TRUSTED", []))
